@@ -68,6 +68,27 @@ where
 {
     HashMap::<K, V>::from_meta(m).map(|x| (x.len(), x.show()))
 }
+/// A hasher under which every key has the same hash: equality alone must decide what a repeated key is.
+#[derive(Default, Clone, Copy)]
+pub struct SameHash;
+impl std::hash::Hasher for SameHash {
+    fn finish(&self) -> u64 {
+        7
+    }
+    fn write(&mut self, _: &[u8]) {}
+}
+impl std::hash::BuildHasher for SameHash {
+    type Hasher = SameHash;
+    fn build_hasher(&self) -> SameHash {
+        SameHash
+    }
+}
+fn hm_same<K: Show + std::hash::Hash + Eq, V: Show + FromMeta>(m: &syn::Meta) -> Result<(usize, String), darling_core::Error>
+where
+    HashMap<K, V, SameHash>: FromMeta,
+{
+    HashMap::<K, V, SameHash>::from_meta(m).map(|x| (x.len(), x.show()))
+}
 fn bm<K: Show + Ord, V: Show + FromMeta>(m: &syn::Meta) -> Result<(usize, String), darling_core::Error>
 where
     BTreeMap<K, V>: FromMeta,
@@ -91,6 +112,8 @@ fn conv_for(map: &str, val: &str) -> (MapConv, ElConv) {
                 "HashMap<Path>" => (hm::<syn::Path, $v> as MapConv, el::<$v> as ElConv),
                 "BTreeMap<String>" => (bm::<String, $v> as MapConv, el::<$v> as ElConv),
                 "BTreeMap<Ident>" => (bm::<syn::Ident, $v> as MapConv, el::<$v> as ElConv),
+                "HashMap<String>+colliding-hasher" => (hm_same::<String, $v> as MapConv, el::<$v> as ElConv),
+                "HashMap<Ident>+colliding-hasher" => (hm_same::<syn::Ident, $v> as MapConv, el::<$v> as ElConv),
                 _ => unreachable!(),
             }
         };
@@ -456,6 +479,15 @@ pub fn check(ctx: &Ctx, c: &Case, spans_only: bool) -> Result<(), Fail> {
                     "{} and {} disagree on `{}`: {:?} vs {:?}",
                     map, twin, src, mine.0, tshown
                 );
+                // ... and so does a hash map declared with a hasher of the user's own (here: one that makes all keys collide)
+                let other = format!("{}+colliding-hasher", map);
+                let (oconv, _) = conv_for(&other, &c.val);
+                let ogot = oconv(&meta);
+                let oshown: Result<(usize, String), Vec<String>> = match &ogot {
+                    Ok(v) => Ok(v.clone()),
+                    Err(e) => Err(e.clone().flatten().into_iter().map(|l| l.to_string()).collect()),
+                };
+                ensure!(mine.0 == oshown, "c14:hasher-matters", "{} with the default hasher and with a colliding one disagree on `{}`: {:?} vs {:?}", map, src, mine.0, oshown);
             }
         }
     }
